@@ -462,7 +462,7 @@ func runC17Backoff(c *Ctx) {
 			conv, ok := lf.Val.(*ssa.Convert)
 			var mul *ssa.BinOp
 			if ok {
-				mul, _ = conv.X.(*ssa.BinOp)
+				mul, _ = w.canon(bf, conv.X).(*ssa.BinOp)
 			}
 			if mul == nil || mul.Op != token.MUL {
 				c.Und("R4.backoff", "Backoff|jittered value shape", w.Pos(r.Pos()), "returned value is not conv(duration)(clamped * jitter): "+w.Short(lf.Val))
@@ -472,7 +472,7 @@ func runC17Backoff(c *Ctx) {
 			var minCall *ssa.Call
 			var other ssa.Value
 			for i, op := range []ssa.Value{mul.X, mul.Y} {
-				if cv, ok := op.(*ssa.Call); ok && calleeName(cv) == "math.Min" {
+				if cv, ok := w.canon(bf, op).(*ssa.Call); ok && calleeName(cv) == "math.Min" {
 					minCall = cv
 					other = []ssa.Value{mul.Y, mul.X}[i]
 				}
